@@ -1,8 +1,132 @@
 import NetVerif.Model.Bpf
 import NetVerif.Model.BpfVM
-namespace NetVerif.Proofs.C49
-open NetVerif NetVerif.Model.Bpf NetVerif.Model.BpfVM
+import NetVerif.Proofs.Lemmas.BpfVM
+import NetVerif.Gen.C48
+/-!
+C49 — the BPF VM computes classic BPF semantics on every packet.
 
-theorem placeholder : runTyped [.retConstant 7] [] = .ret 7 := by decide
+Model: `Model/BpfVM.lean` (`newVM` = NewVM's acceptance, `runTyped` = VM.Run, `runRaw` = reference
+classic-BPF interpreter over raw instructions) and `Model/Bpf.lean` (`asmProg` = Assemble).
+
+Proved for ALL programs and ALL packets (no size bounds):
+* `run_terminates_safely` — an accepted program made of implemented instructions ends in a return or in
+  the `ok = false` halt (result 0): no Go panic, no "unknown Instruction" error, never runs off the end;
+* `fuel_sufficient` — fuel = program length is enough for both machines on every program (forward jumps);
+* `run_eq_ref_partial` — if moreover every ALU instruction uses one of the ten exported operators, then
+  `runTyped p pkt = runRaw (asm p) pkt`.
+The statement without the ALU-operator restriction is false on the unchanged code (`full_false`): NewVM
+and Assemble do not validate `ALUOp`, Run treats an unknown operator as a no-op, the assembled opcode is
+something else (known finding `aluop-unknown`).
+-/
+namespace NetVerif.Proofs.C49
+open NetVerif NetVerif.Model.Bpf NetVerif.Model.BpfVM NetVerif.Proofs.Lemmas.BpfVM
+
+/-- The constants the VM dispatches on are the regenerated constants of constants.go. -/
+theorem gen_vm_constants_eq :
+    Gen.C48.RegA = regA ∧ Gen.C48.RegX = regX ∧ Gen.C48.ExtLen = extLen ∧
+    Gen.C48.ALUOpAdd = aluOpAdd ∧ Gen.C48.ALUOpSub = aluOpSub ∧ Gen.C48.ALUOpMul = aluOpMul ∧
+    Gen.C48.ALUOpDiv = aluOpDiv ∧ Gen.C48.ALUOpOr = aluOpOr ∧ Gen.C48.ALUOpAnd = aluOpAnd ∧
+    Gen.C48.ALUOpShiftLeft = aluOpShiftLeft ∧ Gen.C48.ALUOpShiftRight = aluOpShiftRight ∧
+    Gen.C48.ALUOpMod = aluOpMod ∧ Gen.C48.ALUOpXor = aluOpXor ∧
+    Gen.C48.JumpEqual = jumpEqual ∧ Gen.C48.JumpNotEqual = jumpNotEqual ∧
+    Gen.C48.JumpGreaterThan = jumpGreaterThan ∧ Gen.C48.JumpLessThan = jumpLessThan ∧
+    Gen.C48.JumpGreaterOrEqual = jumpGreaterOrEqual ∧ Gen.C48.JumpLessOrEqual = jumpLessOrEqual ∧
+    Gen.C48.JumpBitsSet = jumpBitsSet ∧ Gen.C48.JumpBitsNotSet = jumpBitsNotSet := by
+  decide
+
+/-- Fuel = program length suffices, for every program (accepted or not) of either machine. -/
+theorem fuel_sufficient (p : List Instr) (rp : List Raw) (pkt : List Nat) :
+    runTyped p pkt ≠ .outOfFuel ∧ runRaw rp pkt ≠ .outOfFuel :=
+  ⟨runFuel_fuel stepTyped p pkt p.length 0 State.init (by omega),
+   runFuel_fuel stepRaw rp pkt rp.length 0 State.init (by omega)⟩
+
+/-- Run terminates without panicking (and without error) on every accepted program that uses only
+implemented instructions, for every packet. -/
+theorem run_terminates_safely (p : List Instr) (pkt : List Nat) (hvm : newVM p = true)
+    (himpl : ∀ i ∈ p, implemented i = true) :
+    (∃ v, runTyped p pkt = .ret v) ∨ runTyped p pkt = .halt := by
+  have hne := (newVM_parts p hvm).1
+  have hpos : 0 < p.length := List.length_pos_iff.mpr hne
+  exact run_safe p pkt hvm himpl p.length 0 State.init hpos (by omega)
+
+/-- Per-instruction refinement, exported: one dispatch step of `VM.Run` equals one step of the reference
+interpreter on the assembled instruction. -/
+theorem step_refines (i : Instr) (r : Raw) (c : Nat) (s : State) (pkt : List Nat)
+    (himpl : implemented i = true) (hk : aluKnown i = true)
+    (hc : checkInstr c i = true) (ha : asm i = some r) : stepTyped i s pkt = stepRaw r s pkt :=
+  step_eq i r c s pkt himpl hk hc ha
+
+/-- C49 on the region the unchanged code satisfies: accepted program, implemented instructions, exported
+ALU operators ⇒ Run = reference interpreter on the assembled program (same outcome, in particular the
+same verdict), for every packet. Missing for the full statement: unknown `ALUOp` values (`full_false`). -/
+theorem run_eq_ref_partial (p : List Instr) (pkt : List Nat) (hvm : newVM p = true)
+    (himpl : ∀ i ∈ p, implemented i = true) (hk : ∀ i ∈ p, aluKnown i = true) :
+    ∃ rp, asmProg p = some rp ∧ runTyped p pkt = runRaw rp pkt := by
+  obtain ⟨_, hchk, _, rp, hasm⟩ := newVM_parts p hvm
+  obtain ⟨hlen, hget⟩ := asmProg_get p rp hasm
+  refine ⟨rp, hasm, ?_⟩
+  unfold runTyped runRaw
+  rw [hlen]
+  apply runFuel_congr stepTyped stepRaw p rp pkt hlen
+  intro pc i hi
+  obtain ⟨r, hr, hrp⟩ := hget pc i hi
+  have hmem : i ∈ p := List.mem_of_getElem? hi
+  exact ⟨r, hrp, fun s => step_eq i r _ s pkt (himpl i hmem) (hk i hmem) (checkAll_get p hchk pc i hi) hr⟩
+
+/-- The reference interpreter accepts the assembled program on that region: it ends in a return or in a
+return-0 halt (never an invalid opcode, never off the end). -/
+theorem ref_valid_partial (p : List Instr) (pkt : List Nat) (hvm : newVM p = true)
+    (himpl : ∀ i ∈ p, implemented i = true) (hk : ∀ i ∈ p, aluKnown i = true) :
+    ∃ rp, asmProg p = some rp ∧ ((∃ v, runRaw rp pkt = .ret v) ∨ runRaw rp pkt = .halt) := by
+  obtain ⟨rp, h1, h2⟩ := run_eq_ref_partial p pkt hvm himpl hk
+  exact ⟨rp, h1, h2 ▸ run_terminates_safely p pkt hvm himpl⟩
+
+/-- C49 as stated: every accepted program without NegateA (and without pass-through RawInstructions). -/
+def Statement : Prop :=
+  ∀ (p : List Instr) (pkt : List Nat), newVM p = true → (∀ i ∈ p, i.WF ∧ implemented i = true) →
+    ((∃ v, runTyped p pkt = .ret v) ∨ runTyped p pkt = .halt) ∧
+    ∃ rp, asmProg p = some rp ∧ runTyped p pkt = runRaw rp pkt
+
+/-- Witness: `[LoadConstant A 1, LoadConstant X 2, ALUOpConstant{Op: 8, Val: 5}, RetA]` is accepted; Run
+returns 1 (unknown operator = no-op); the program assembles to `ld #1; ldx #2; add x; ret a`, which
+returns 3. -/
+theorem witness_aluop :
+    newVM [.loadConstant 0 1, .loadConstant 1 2, .aluOpConstant 8 5, .retA] = true ∧
+    runTyped [.loadConstant 0 1, .loadConstant 1 2, .aluOpConstant 8 5, .retA] [] = .ret 1 ∧
+    asmProg [.loadConstant 0 1, .loadConstant 1 2, .aluOpConstant 8 5, .retA] =
+      some [⟨0x00, 0, 0, 1⟩, ⟨0x01, 0, 0, 2⟩, ⟨0x0c, 0, 0, 5⟩, ⟨0x16, 0, 0, 0⟩] ∧
+    runRaw [⟨0x00, 0, 0, 1⟩, ⟨0x01, 0, 0, 2⟩, ⟨0x0c, 0, 0, 5⟩, ⟨0x16, 0, 0, 0⟩] [] = .ret 3 := by
+  decide
+
+theorem full_false : ¬ Statement := by
+  intro h
+  obtain ⟨_, rp, h1, h2⟩ := h [.loadConstant 0 1, .loadConstant 1 2, .aluOpConstant 8 5, .retA] []
+    (by decide) (by decide)
+  obtain ⟨_, w2, w3, w4⟩ := witness_aluop
+  rw [w3] at h1
+  cases h1
+  rw [w2, w4] at h2
+  exact absurd h2 (by decide)
+
+/-- C49 with the excluded region as a decidable predicate (`aluKnown`). -/
+theorem holds_partial (p : List Instr) (pkt : List Nat) (hvm : newVM p = true)
+    (himpl : ∀ i ∈ p, i.WF ∧ implemented i = true) (hk : ∀ i ∈ p, aluKnown i = true) :
+    ((∃ v, runTyped p pkt = .ret v) ∨ runTyped p pkt = .halt) ∧
+    ∃ rp, asmProg p = some rp ∧ runTyped p pkt = runRaw rp pkt :=
+  ⟨run_terminates_safely p pkt hvm (fun i hi => (himpl i hi).2),
+   run_eq_ref_partial p pkt hvm (fun i hi => (himpl i hi).2) hk⟩
+
+/-! ### non-vacuity -/
+
+/-- An accepted program with every kind of implemented instruction (IPv4/TCP-port style filter), run on a
+packet: both machines return the same non-zero verdict. -/
+example :
+    let p : List Instr := [.loadAbsolute 0 1, .aluOpConstant aluOpAnd 0xf0, .jumpIf jumpNotEqual 0x40 11 0,
+      .loadMemShift 0, .loadIndirect 2 2, .jumpIf jumpEqual 80 0 8, .storeScratch 0 3, .loadExtension 1,
+      .tax, .loadScratch 0 3, .aluOpX aluOpAdd, .jumpIfX jumpGreaterThan 1 0, .txa, .aluOpConstant aluOpShiftLeft 33,
+      .retConstant 0xffff, .retA]
+    newVM p = true ∧ p.all (fun i => implemented i && aluKnown i && decide i.WF) = true ∧
+    runTyped p [0x45, 0, 0, 0, 0, 0, 0, 0, 0, 0, 0, 0, 0, 0, 0, 0, 0, 0, 0, 0, 0, 0, 0, 80] = .ret 65535 := by
+  decide
 
 end NetVerif.Proofs.C49
